@@ -5,7 +5,7 @@ META = {
     "level": "other",
     "trusted_base": ["the chunking lemma (DESIGN.md 5.6) is a paper proof over the statically checked clauses"],
     "explanation": "The chunking lemma needs: (a) a candidate's verdict depends only on its first L+6 bytes and is Incomplete iff "
-                   "fewer than 6 / L+6 bytes are available (A-ext, A-err, D-len, D-idx, N-pres); (b) Incomplete returns the candidate's own "
+                   "fewer than 6 / L+6 bytes are available (A-ext, A-inc, D-len, D-idx, N-pres); (b) Incomplete returns the candidate's own "
                    "offset (S-inc); (c) skipped bytes are NotValid or non-0xD3 positions (S-skip, S-cand); (d) Ok returns the frame end (S-ok) "
                    "and the end of data returns len (S-end). This check is the conjunction of those rule instances on the current tree.",
     "assumptions": ["induction over chunks is done on paper, not mechanised"],
@@ -15,7 +15,7 @@ META = {
 def run(ctx, res):
     prog = ctx.prog("K0")
     import engine
-    m = framing.rules_new(prog, engine.Filtered(res, {"A-shape", "A-ext", "A-err", "A-out", "S-closed", "N-pres", "D-len", "D-idx"}))
+    m = framing.rules_new(prog, engine.Filtered(res, {"A-shape", "A-ext", "A-inc", "A-out", "S-closed", "N-pres", "D-len", "D-idx"}))
     if m.ok and len(m.oks) == 1:
         framing.rule_n_pres(prog, res, m)
         framing.rule_d_len(prog, res, m)
